@@ -169,7 +169,20 @@ pub enum Effect {
     Ends,
 }
 
+/// Which reading of "`step` over a call pauses at the following address" the model follows.
+#[derive(Clone, Copy, Debug, PartialEq, Eq)]
+pub enum StepReading {
+    /// both readings must agree, otherwise the effect is `Ambiguous`
+    Strict,
+    /// pause the first time PC equals the following address
+    FirstArrival,
+    /// pause when the call has returned (call depth back to the caller's)
+    CallReturned,
+}
+
+#[derive(Clone)]
 pub struct Dbg<'a> {
+    pub step_reading: StepReading,
     pub vm: Vm,
     pub initial: Vm,
     pub bps: BTreeSet<u16>,
@@ -187,6 +200,7 @@ pub struct Dbg<'a> {
 impl<'a> Dbg<'a> {
     pub fn new(vm: Vm, bps: impl IntoIterator<Item = u16>, symbols: Vec<(String, u16)>, input: &'a [u8], budget: u64) -> Self {
         Dbg {
+            step_reading: StepReading::Strict,
             initial: vm.clone(),
             vm,
             bps: bps.into_iter().collect(),
@@ -417,14 +431,21 @@ impl<'a> Dbg<'a> {
                     }
                     let at_ret = self.vm.pc == ret;
                     let returned = depth <= 0;
-                    if at_ret && returned {
+                    let stop = match self.step_reading {
+                        StepReading::Strict => {
+                            if at_ret != returned {
+                                // a deeper activation reached the following address first, or
+                                // the subroutine returned somewhere else: the readings disagree
+                                return Effect::Ambiguous("step over: readings disagree");
+                            }
+                            at_ret
+                        }
+                        StepReading::FirstArrival => at_ret,
+                        StepReading::CallReturned => returned,
+                    };
+                    if stop {
                         let p = self.pause_reason(false).unwrap_or(Pause::Done);
                         return ran(self, p);
-                    }
-                    if at_ret != returned {
-                        // a deeper activation reached the following address first, or the
-                        // subroutine returned somewhere else: the two readings disagree
-                        return Effect::Ambiguous("step over: readings disagree");
                     }
                 }
             }
